@@ -431,6 +431,38 @@ def _inside(res, rng, thorough):
             res.traces += 1
         else:
             res.mismatch("K35 _is_inside", {"p": p.tolist(), "lo": lo.tolist(), "hi": hi.tolist(), "kind": kind}, w, got)
+    # _ivp_func / _ivp_jac: the velocity (gradient) inside the box, zeros of the same shape outside
+    fi, fj = getattr(P, "_ivp_func", None), getattr(P, "_ivp_jac", None)
+    if fi is None or fj is None:
+        res.count("skipped:_ivp_func_absent")
+        return
+    lines, want = [], []
+    for k in range(40 if not thorough else 600):
+        n = int(rng.choice([2, 3]))
+        lo = rng.uniform(-2, 0, n)
+        hi = lo + rng.uniform(0.1, 3, n)
+        p = lo + rng.uniform(-0.3, 1.3, n) * (hi - lo)
+        vel = rng.normal(size=n)
+        jac = rng.normal(size=(n, n))
+        ins = bool(f(p, lo, hi))
+        got = np.asarray(fi(0.0, p, lambda t, x: vel, lambda t, x: jac, lo, hi), float)
+        gj = np.asarray(fj(0.0, p, lambda t, x: vel, lambda t, x: jac, lo, hi), float)
+        res.evaluations += 1
+        res.count("ivp_func:" + ("inside" if ins else "outside"))
+        lines.append(f"flow_ivp {'1' if ins else '0'} {C.fs2h(vel)}")
+        want.append((p, lo, hi, vel, got))
+        exp_j = jac if ins else np.zeros((n, n))
+        if gj.shape != (n, n) or not np.array_equal(gj, exp_j):
+            res.violation("ivp_jac:spec", "_ivp_jac is not the gradient inside / zeros outside the box",
+                          {"p": p.tolist(), "lo": lo.tolist(), "hi": hi.tolist()})
+        if not np.array_equal(got, vel if ins else np.zeros(n)):
+            res.violation("ivp_func:spec", "_ivp_func is not the velocity inside / zeros outside the box",
+                          {"p": p.tolist(), "lo": lo.tolist(), "hi": hi.tolist()})
+    for (p, lo, hi, vel, got), line in zip(want, C.run_driver(lines)):
+        if C.close(C.hs2f(line.split()), got):
+            res.traces += 1
+        else:
+            res.mismatch("K35 _ivp_func", {"p": p.tolist(), "lo": lo.tolist(), "hi": hi.tolist(), "vel": vel.tolist()}, got.tolist(), line)
 
 
 class _Captured(Exception):
@@ -682,7 +714,7 @@ def _pathlines(res, rng, thorough):
     from pydrex import velocity as V
     import scipy.integrate as si
 
-    N = 160 if not thorough else 2500
+    N = 160 if not thorough else 6000
     stats = {}
     hl, hw = [], []
     for flow in ("simple_shear_2d", "cell_2d", "corner_2d"):
